@@ -248,6 +248,17 @@ impl ReplicaProp {
                 }
                 let snap = s.rig.snapshot();
                 // ---- monitors on the implementation (S)
+                // C02 / C04: a proposal or new-view is only ever accepted with a justification that verifies (whatever the
+                // replica already knows about that view)
+                if class == "accepted" && op["op"] == "msg" {
+                    let j = op["msg"].get("newview").or_else(|| op["msg"].get("proposal").and_then(|p| p.get("just")));
+                    if let Some(aj) = j.and_then(|j| serde_json::from_value::<AJust>(j.clone()).ok()) {
+                        let (rj, _) = s.w.just(&aj);
+                        if rj.verify(s.w.genesis, s.w.epoch, &s.w.schedule).is_err() {
+                            out.oracle_fail("accepted_unverifiable_justification", "a proposal / new-view was accepted although its justification (certificate) does not verify", op.clone());
+                        }
+                    }
+                }
                 self.mon.accepted_last = class == "accepted";
                 self_monitors(&mut self.mon, &s.w, &s.rig, &obs.events, &snap, &op, out);
                 let snapj = sum_snapshot(&mut s.w, &snap);
@@ -639,6 +650,7 @@ impl ReplicaProp {
             // top of what the replica holds, the replica votes, the commit certificate for that vote arrives), so that the
             // finalisation path hands real blocks to the store before the random part starts
             let mut happy: u32 = if self.mode != Mode::Flood && rng.gen_bool(0.5) { rng.gen_range(1..5) } else { 0 };
+            let mut fam_counter: usize = case;
             for _ in 0..steps {
                 if let Some(op) = pending.pop_front() {
                     let (op, obs) = self.exec_full(&op, out);
@@ -684,11 +696,20 @@ impl ReplicaProp {
                         continue;
                     }
                 }
-                // directed multi-message families (6% of the steps)
-                if self.mode != Mode::Flood && g.rng.gen_range(0..100) < 6 {
+                // directed multi-message families (10% of the steps), in rotation so that every case sees each of them
+                if self.mode != Mode::Flood && g.rng.gen_range(0..100) < 10 {
                     let hc_view = snap.high_commit_qc.as_ref().map(|q| q.view().number.0);
                     let ht_view = snap.high_timeout_qc.as_ref().map(|q| q.view.number.0);
-                    if cur >= 2 && ht_view == Some(cur - 1) && hc_view.is_none_or(|v| v + 2 < cur) && !g.certified.contains_key(&(cur - 2)) && g.rng.gen_bool(0.7) {
+                    let fam = fam_counter % 6;
+                    fam_counter += 1;
+                    // helper: a quorum of plain timeout votes for `v` from distinct signers (the replica assembles TimeoutQC(v))
+                    let timeouts_for = |g: &mut Gen, pending: &mut std::collections::VecDeque<Value>, v: u64| {
+                        let hq = hc_view.filter(|x| g.certified.contains_key(x) && *x < v).map(|x| g.valid_cqc(x, 0, 0));
+                        for i in g.quorum_set() {
+                            pending.push_back(json!({"op":"msg","from":i,"sig_ok":true,"msg":{"timeout":ATVote { view: aview(v), hv: None, hq: hq.clone() }}}));
+                        }
+                    };
+                    if cur >= 2 && ht_view == Some(cur - 1) && hc_view.is_none_or(|v| v + 2 < cur) && !g.certified.contains_key(&(cur - 2)) && g.rng.gen_bool(0.5) {
                         // the replica entered this view on a timeout certificate; the view's leader assembled a DIFFERENT timeout
                         // certificate for the same view, one of whose votes carries a commit certificate the replica has not
                         // seen: it must be adopted although the timeout certificate itself brings nothing new
@@ -705,64 +726,88 @@ impl ReplicaProp {
                             if !payload_ok(fresh) { fresh += 1; }
                             pending.push_back(json!({"op":"msg","from":leader,"sig_ok":true,"msg":{"proposal":{"payload":fresh,"just":AJust::Timeout(tq)}},"crash":Value::Null}));
                         }
-                    } else if g.rng.gen_bool(0.6) {
+                        continue;
+                    }
+                    match fam {
                         // a quorum of votes of one kind for ONE view at or above the current one, from distinct signers: the
                         // replica assembles the certificate itself and must move to the view after the CERTIFICATE's view
-                        let w_view = cur + *[0u64, 0, 1, 2, 7].choose(g.rng).unwrap();
-                        let signers = g.quorum_set();
-                        out.count("family=vote_burst");
-                        if g.rng.gen_bool(0.5) {
+                        0 => {
+                            out.count("family=vote_burst");
+                            let w_view = cur + *[0u64, 0, 1, 2, 7].choose(g.rng).unwrap();
                             let h = g.rng.gen_range(1..4);
                             let (bn, h) = *g.certified.entry(w_view).or_insert((base_n, h));
-                            for i in signers {
+                            for i in g.quorum_set() {
                                 pending.push_back(json!({"op":"msg","from":i,"sig_ok":true,"msg":{"commit":avote(w_view, bn, h)}}));
                             }
-                        } else {
-                            let hq = hc_view.filter(|v| g.certified.contains_key(v) && *v < w_view).map(|v| g.valid_cqc(v, 0, 0));
-                            for i in signers {
-                                pending.push_back(json!({"op":"msg","from":i,"sig_ok":true,"msg":{"timeout":ATVote { view: aview(w_view), hv: None, hq: hq.clone() }}}));
-                            }
-                            // ... and then the next view's leader shows up with ANOTHER timeout certificate for the same view,
-                            // one that carries a commit certificate the replica has not seen (different timeout quorum)
-                            if w_view == cur && cur >= 1 && hc_view.is_none_or(|v| v + 1 < cur) && !g.certified.contains_key(&(cur - 1)) && g.rng.gen_bool(0.6) {
-                                out.count("family=richer_timeout_qc_for_passed_view");
-                                let h = g.rng.gen_range(1..4);
-                                let hq2 = Some(g.valid_cqc(cur - 1, base_n, h));
-                                let s2 = g.quorum_set();
-                                let tq = atqc(n, aview(cur), &[(ATVote { view: aview(cur), hv: None, hq: hq2 }, s2)]);
-                                pending.push_back(json!({"op":"msg","from":g.leader(cur + 1),"sig_ok":true,"msg":{"newview":AJust::Timeout(tq)}}));
-                            }
                         }
-                    } else if g.rng.gen_bool(0.4) {
-                        // a validator's vote for the current view, another validator's vote for it (keeps the partial
-                        // certificate alive), the first validator's vote for a FUTURE view, then its old vote again
-                        out.count("family=stale_resend_after_future_vote");
-                        let i = g.rng.gen_range(0..n);
-                        let j = (i + 1 + g.rng.gen_range(0..n - 1)) % n;
-                        let fut = cur + g.rng.gen_range(1..6);
-                        if g.rng.gen_bool(0.5) {
-                            let h = g.rng.gen_range(1..4);
-                            let (bn, h) = *g.certified.entry(cur).or_insert((base_n, h));
-                            let (fb, fh) = *g.certified.entry(fut).or_insert((base_n + 1, h));
-                            for (from, v, b_, h_) in [(i, cur, bn, h), (j, cur, bn, h), (i, fut, fb, fh), (i, cur, bn, h)] {
-                                pending.push_back(json!({"op":"msg","from":from,"sig_ok":true,"msg":{"commit":avote(v, b_, h_)}}));
-                            }
-                        } else {
-                            for (from, v) in [(i, cur), (j, cur), (i, fut), (i, cur)] {
-                                pending.push_back(json!({"op":"msg","from":from,"sig_ok":true,"msg":{"timeout":ATVote { view: aview(v), hv: None, hq: None }}}));
-                            }
+                        1 => {
+                            out.count("family=vote_burst");
+                            let w_view = cur + *[0u64, 0, 1, 2, 7].choose(g.rng).unwrap();
+                            timeouts_for(&mut g, &mut pending, w_view);
                         }
-                    } else if cur >= 1 {
                         // the view's timer fires, then the leader's new-view and proposal for the SAME view arrive late: a
                         // timeout vote is a promise not to vote in that view any more
-                        out.count("family=late_leader_after_timeout");
-                        let just = g.just_held(cur, hc_view);
-                        let leader = g.leader(cur);
-                        fresh += 1;
-                        if !payload_ok(fresh) { fresh += 1; }
-                        pending.push_back(json!({"op":"tick","crash":Value::Null}));
-                        pending.push_back(json!({"op":"msg","from":leader,"sig_ok":true,"msg":{"newview":just.clone()}}));
-                        pending.push_back(json!({"op":"msg","from":leader,"sig_ok":true,"msg":{"proposal":{"payload":fresh,"just":just}},"crash":Value::Null}));
+                        2 if cur >= 1 => {
+                            out.count("family=late_leader_after_timeout");
+                            let just = g.just_held(cur, hc_view);
+                            let leader = g.leader(cur);
+                            fresh += 1;
+                            if !payload_ok(fresh) { fresh += 1; }
+                            pending.push_back(json!({"op":"tick","crash":Value::Null}));
+                            pending.push_back(json!({"op":"msg","from":leader,"sig_ok":true,"msg":{"newview":just.clone()}}));
+                            pending.push_back(json!({"op":"msg","from":leader,"sig_ok":true,"msg":{"proposal":{"payload":fresh,"just":just}},"crash":Value::Null}));
+                        }
+                        // a validator's vote for the current view, another validator's vote for it (keeps the partial
+                        // certificate alive), the first validator's vote for a FUTURE view, then its old vote again
+                        2 | 3 => {
+                            out.count("family=stale_resend_after_future_vote");
+                            let i = g.rng.gen_range(0..n);
+                            let j = (i + 1 + g.rng.gen_range(0..n - 1)) % n;
+                            let fut = cur + g.rng.gen_range(1..6);
+                            if g.rng.gen_bool(0.5) {
+                                let h = g.rng.gen_range(1..4);
+                                let (bn, h) = *g.certified.entry(cur).or_insert((base_n, h));
+                                let (fb, fh) = *g.certified.entry(fut).or_insert((base_n + 1, h));
+                                for (from, v, b_, h_) in [(i, cur, bn, h), (j, cur, bn, h), (i, fut, fb, fh), (i, cur, bn, h)] {
+                                    pending.push_back(json!({"op":"msg","from":from,"sig_ok":true,"msg":{"commit":avote(v, b_, h_)}}));
+                                }
+                            } else {
+                                for (from, v) in [(i, cur), (j, cur), (i, fut), (i, cur)] {
+                                    pending.push_back(json!({"op":"msg","from":from,"sig_ok":true,"msg":{"timeout":ATVote { view: aview(v), hv: None, hq: None }}}));
+                                }
+                            }
+                        }
+                        // the replica assembles TimeoutQC(cur) and moves on; then the next view's leader shows up with ANOTHER
+                        // timeout certificate for the same view that carries a commit certificate the replica has not seen
+                        4 if cur >= 1 && hc_view.is_none_or(|v| v + 1 < cur) && !g.certified.contains_key(&(cur - 1)) => {
+                            out.count("family=richer_timeout_qc_for_passed_view");
+                            timeouts_for(&mut g, &mut pending, cur);
+                            let h = g.rng.gen_range(1..4);
+                            let hq2 = Some(g.valid_cqc(cur - 1, base_n, h));
+                            let s2 = g.quorum_set();
+                            let tq = atqc(n, aview(cur), &[(ATVote { view: aview(cur), hv: None, hq: hq2 }, s2)]);
+                            pending.push_back(json!({"op":"msg","from":g.leader(cur + 1),"sig_ok":true,"msg":{"newview":AJust::Timeout(tq)}}));
+                        }
+                        // ... or proposes on top of a FABRICATED timeout certificate for the view the replica has just left (too
+                        // little weight behind it / one signature missing): holding a genuine certificate for that view is no
+                        // reason to skip verification
+                        _ => {
+                            out.count("family=forged_timeout_qc_for_passed_view");
+                            timeouts_for(&mut g, &mut pending, cur);
+                            let few: Vec<usize> = g.quorum_set().into_iter().take(1 + g.rng.gen_range(0..2)).collect();
+                            let mut tq = if g.rng.gen_bool(0.5) {
+                                atqc(n, aview(cur), &[(ATVote { view: aview(cur), hv: None, hq: None }, few)])
+                            } else {
+                                let s3 = g.quorum_set();
+                                atqc(n, aview(cur), &[(ATVote { view: aview(cur), hv: None, hq: None }, s3)])
+                            };
+                            if tq.sig.len() > 2 {
+                                tq.sig.pop();
+                            }
+                            fresh += 1;
+                            if !payload_ok(fresh) { fresh += 1; }
+                            pending.push_back(json!({"op":"msg","from":g.leader(cur + 1),"sig_ok":true,"msg":{"proposal":{"payload":fresh,"just":AJust::Timeout(tq)}},"crash":Value::Null}));
+                        }
                     }
                     continue;
                 }
